@@ -150,7 +150,7 @@ func (ix *sliceIndex) smtText(o *Oblig, pruned bool) string {
 				continue
 			}
 			for _, sy := range ix.axSyms[i] {
-				if (strings.HasPrefix(sy, "|spec.") || strings.HasPrefix(sy, "|glob_")) && seen[sy] {
+				if (strings.HasPrefix(sy, "|spec.") || strings.HasPrefix(sy, "|glob_") || strings.HasPrefix(sy, "|$idxkey.") || strings.HasPrefix(sy, "|ext.")) && seen[sy] {
 					axIn[i] = true
 					work = append(work, ix.axSyms[i]...)
 					progress = true
